@@ -838,7 +838,10 @@ func (e *connectWireError) MarshalJSON() ([]byte, error) {
 	}
 	if connectErr, ok := asError((*Error)(e)); ok {
 		wire.Code = connectErr.Code().String()
-		wire.Message = connectErr.Message()
+		// Error messages may quote bytes received from the peer (for example,
+		// when a payload can't be unmarshaled). JSON strings must be valid UTF-8,
+		// so replace any invalid bytes rather than failing to send the error.
+		wire.Message = strings.ToValidUTF8(connectErr.Message(), "\uFFFD")
 		details, err := connectErr.detailsAsAny()
 		if err != nil {
 			return nil, err
